@@ -1,6 +1,7 @@
 import RockitModel.Props.C04
 import RockitModel.Props.C02
 import RockitModel.Generated.Clone
+import RockitModel.Generated.Scales
 /-!
 # C14 — scaling arguments never change the meaning of the problem
 -/
@@ -61,5 +62,20 @@ derivative scales: an instance that re-declares a derivative with another scale 
 theorem scale_table_is_per_stage :
     (Rockit.Generated.cloneTable.filter (fun e => e.1 == "_scale_der")).all (fun e => e.2.1 == .copy || e.2.1 == .deepcopy) = true ∧
     (Rockit.Generated.cloneTable.filter (fun e => e.1 == "_scale_der")).length = 1 := by decide
+
+/-! ### every decision variable of a declared symbol is created with that symbol's scale -/
+/-- over the table regenerated from the source on every run: each `opti.variable(...)` call of the transcription methods that creates
+decision variables for states, algebraic variables, controls or declared variables hands Opti the scale of that kind (so that the
+solver variable is the physical one divided by it: `solver_variables`), and the local names used by the collocation method are bound
+to the stage's scale vectors, once each -/
+theorem every_symbol_variable_site_scaled :
+    (Rockit.Generated.variableSites.all (fun r => r.kind == "other" || r.scaled)) = true ∧
+    Rockit.Generated.scaleLocals = [("scale_x", "stage._scale_x"), ("scale_z", "stage._scale_z"), ("scale_u", "stage._scale_u")] := by decide
+
+/-- non-vacuity: the table has sites of every kind, among them the algebraic variables at the collocation roots of the integration steps
+after the first one (four `stage.nz` sites in `DirectCollocation.add_variables`) -/
+theorem variable_sites_present :
+    ["x", "z", "u", "symbol", "variable"].all (fun k => Rockit.Generated.variableSites.any (fun r => r.kind == k)) = true ∧
+    (Rockit.Generated.variableSites.filter (fun r => r.kind == "z" && r.file == "direct_collocation")).length = 4 := by decide
 
 end Rockit.C14
